@@ -69,13 +69,17 @@ Definition is_scalar (c : N) : bool := (c <? 55296) || ((57344 <=? c) && (c <=? 
 Inductive response_kind :=
 | KOk (data : option bytes)
 | KError (data : option bytes).
-Record plugin_response := { pr_kind : response_kind; pr_close : bool }.
+(** [pr_ack]: the response has a [post_send] callback, and what that callback does is acknowledge
+    the pre-shutdown phase ([sender.send(())] in [with_shutdown] and [with_reload]; no other
+    built-in plugin has a [post_send]). *)
+Record plugin_response := { pr_kind : response_kind; pr_close : bool; pr_ack : bool }.
 
-Definition pr_ok (d : bytes) := {| pr_kind := KOk (Some d); pr_close := false |}.
-Definition pr_ok_empty := {| pr_kind := KOk None; pr_close := false |}.
-Definition pr_error (d : bytes) := {| pr_kind := KError (Some d); pr_close := false |}.
-Definition pr_error_empty := {| pr_kind := KError None; pr_close := false |}.
-Definition pr_closing (r : plugin_response) := {| pr_kind := pr_kind r; pr_close := true |}.
+Definition pr_ok (d : bytes) := {| pr_kind := KOk (Some d); pr_close := false; pr_ack := false |}.
+Definition pr_ok_empty := {| pr_kind := KOk None; pr_close := false; pr_ack := false |}.
+Definition pr_error (d : bytes) := {| pr_kind := KError (Some d); pr_close := false; pr_ack := false |}.
+Definition pr_error_empty := {| pr_kind := KError None; pr_close := false; pr_ack := false |}.
+Definition pr_closing (r : plugin_response) := {| pr_kind := pr_kind r; pr_close := true; pr_ack := pr_ack r |}.
+Definition pr_acking (r : plugin_response) := {| pr_kind := pr_kind r; pr_close := pr_close r; pr_ack := true |}.
 
 Record handler_response := { hr_data : bytes; hr_close : bool }.
 
@@ -234,12 +238,16 @@ Section Handler.
 
   (** The accept loop: while listening every connection is read to its end, handled and answered;
       [close] makes the loop [break 'outer], after which nobody accepts. *)
-  Inductive listener := Listening | Closed.
+  (** [Unlinked]: the socket file was removed; nobody can connect until the accept loop has
+      bound the path again (signal/src/lib.rs: the watcher sends [false], the loop drops the
+      listener, sleeps 100 ms and [continue 'outer]). *)
+  Inductive listener := Listening | Unlinked | Closed.
   Inductive reply := Data (b : bytes) | NoAnswer.
 
   Definition serve (ps : plugins) (ls : listener * S) (req : bytes) : (listener * S) * reply :=
     match ls with
     | (Closed, s) => ((Closed, s), NoAnswer)
+    | (Unlinked, s) => ((Unlinked, s), NoAnswer)
     | (Listening, s) =>
         let (hr, s') := handle ps req s in
         ((if hr_close hr then Closed else Listening, s'), Data (hr_data hr))
@@ -267,10 +275,13 @@ Section Handler.
       the pre-shutdown phase. *)
   Variable shutdown_effect : bool -> S -> S.
   Definition shutdown_plugin : plugin := fun args s =>
-    let done no_wait rest :=
+    let done (no_wait : bool) (rest : list str) :=
       match rest with
       | _ :: _ => (pr_error (B "unexpected argument"), s)
-      | [] => (pr_closing (pr_ok (B "'Successfully completed a graceful shutdown.'")), shutdown_effect no_wait s)
+      | [] => let r := pr_closing (pr_ok (B "'Successfully completed a graceful shutdown.'")) in
+              (* [.post_send(move || if let Some(sender) = sender { sender.send(()) })]: [sender] is
+                 [Some] in the waiting variant *)
+              (if no_wait then r else pr_acking r, shutdown_effect no_wait s)
       end in
     match args with
     | [] => done false []
@@ -337,32 +348,47 @@ Arguments request_name toks : simpl never.
 
 (** ---- the listener as a labelled transition system with any number of open connections ---------------
     [start_at]: the accept loop only accepts and spawns; every accepted connection is served by
-    its own task ([read_to_end], handler, [write_all], drop).  A connection's progress:
+    its own task ([read_to_end], handler, [write_all], [post_send], drop).  A connection's progress:
     accepted and reading ([POpen], the bytes received so far) -> the client has shut down its
     write side ([PComplete], the request) -> the task has written its reply and dropped the
     connection ([PReplied]; the empty reply when the task panicked).  [PRefused]: connect failed,
-    nobody listens.  What a handler can wait for (the pre-shutdown phase for [wait], anything a
+    nobody listens.  [PGone req handled]: the client closed the connection altogether (the server's
+    [read_to_end] ends there too, so [req] is the request; nobody will read the reply); [handled]:
+    the task has run.  What a handler can wait for (the pre-shutdown phase for [wait], anything a
     user plugin awaits) is [blocked]; what happens outside the socket (a shutdown initiated
     elsewhere sends [close] to the accept loop, ...) is [env_step]: new state and whether the
     listener is closed.  Every event concerns one connection (or the environment) and reads and
-    writes only that connection's entry. *)
+    writes only that connection's entry.
+
+    Events of the listener itself: [EUnlink] -- the socket file is removed (the watcher notices it);
+    [ERelisten] -- the accept loop has bound the path again; [EAcceptErr] -- [accept()] returned an
+    error (EMFILE, ...).
+
+    The per-connection task after the handler returned [{ data, close, post_send }]:
+      [if close { sender.send(true) }  write_all(data)  flush()  post_send()]
+    [post_send] acknowledges the pre-shutdown phase ([pr_ack]); its effect on the state is [ack]. *)
 Inductive conn_phase :=
 | PRefused
 | POpen (buf : bytes)
 | PComplete (req : bytes)
-| PReplied (d : bytes).
+| PReplied (d : bytes)
+| PGone (req : bytes) (handled : bool).
 
 Inductive event :=
 | EConnect (k : N)
 | ESend (k : N) (b : bytes)
 | EFin (k : N)
 | EHandle (k : N)
-| EEnv (e : N).
+| EEnv (e : N)
+| EDrop (k : N)
+| EUnlink
+| ERelisten
+| EAcceptErr.
 
 Definition event_conn (ev : event) : option N :=
   match ev with
-  | EConnect k | ESend k _ | EFin k | EHandle k => Some k
-  | EEnv _ => None
+  | EConnect k | ESend k _ | EFin k | EHandle k | EDrop k => Some k
+  | EEnv _ | EUnlink | ERelisten | EAcceptErr => None
   end.
 
 Definition conns := list (N * conn_phase).
@@ -382,19 +408,52 @@ Section Lts.
   Variable ps : plugins_chk S.
   Variable blocked : bytes -> S -> bool.
   Variable env_step : N -> S -> S * bool.
+  (** what the [post_send] of a response with [pr_ack] does to the state *)
+  Variable ack : S -> S.
 
   Record lts_state := { l_listener : listener; l_env : S; l_conns : conns }.
   Definition lts_init (s : S) : lts_state := {| l_listener := Listening; l_env := s; l_conns := [] |}.
 
   Definition with_conn (st : lts_state) (k : N) (v : conn_phase) : lts_state :=
     {| l_listener := l_listener st; l_env := l_env st; l_conns := conn_set k v (l_conns st) |}.
+  Definition with_listener (st : lts_state) (l : listener) : lts_state :=
+    {| l_listener := l; l_env := l_env st; l_conns := l_conns st |}.
 
-  Definition lstep (st : lts_state) (ev : event) : lts_state :=
+  (** does the response to [req] in state [s] carry an acknowledging [post_send]? *)
+  Definition response_ack (req : bytes) (s : S) : bool :=
+    match utf8_decode req with
+    | None => false
+    | Some data =>
+        let toks := quoted_str_split data in
+        match lookup_chk (request_name toks) ps with
+        | Some p => match p (request_args toks) s with Ok rs => pr_ack (fst rs) | _ => false end
+        | None => false
+        end
+    end.
+
+  (** The task of connection [k] whose request is [req]: handler, close message, write, post_send.
+      [reads]: is there still a client to write to.  [fixed = false] is the code before the repair
+      (the task returned when [write_all] failed, before [post_send]). *)
+  Definition run_task (fixed : bool) (st : lts_state) (k : N) (req : bytes) (reads : bool) : lts_state :=
+    if blocked req (l_env st) then st
+    else
+      let done (d : bytes) := if reads then PReplied d else PGone req true in
+      match handle_chk ps req (l_env st) with
+      | Ok (hr, s') =>
+          {| l_listener := if hr_close hr then Closed else l_listener st;
+             l_env := if response_ack req (l_env st) && (fixed || reads) then ack s' else s';
+             l_conns := conn_set k (done (hr_data hr)) (l_conns st) |}
+      | _ => with_conn st k (done [])    (* the task died: dropped without data *)
+      end.
+
+  (** [fixed = false]: the code before the two repairs ([EAcceptErr] left the accept loop, after
+      which the path could not be bound again; a failed write skipped [post_send]). *)
+  Definition lstep_gen (fixed : bool) (st : lts_state) (ev : event) : lts_state :=
     match ev with
     | EConnect k =>
         match conn_get k (l_conns st) with
         | Some _ => st
-        | None => with_conn st k (match l_listener st with Listening => POpen [] | Closed => PRefused end)
+        | None => with_conn st k (match l_listener st with Listening => POpen [] | _ => PRefused end)
         end
     | ESend k b =>
         match conn_get k (l_conns st) with
@@ -406,25 +465,36 @@ Section Lts.
         | Some (POpen buf) => with_conn st k (PComplete buf)
         | _ => st
         end
+    | EDrop k =>
+        match conn_get k (l_conns st) with
+        | Some (POpen buf) => with_conn st k (PGone buf false)
+        | Some (PComplete req) => with_conn st k (PGone req false)
+        | _ => st
+        end
     | EHandle k =>
         match conn_get k (l_conns st) with
-        | Some (PComplete req) =>
-            if blocked req (l_env st) then st
-            else match handle_chk ps req (l_env st) with
-                 | Ok (hr, s') =>
-                     {| l_listener := if hr_close hr then Closed else l_listener st;
-                        l_env := s';
-                        l_conns := conn_set k (PReplied (hr_data hr)) (l_conns st) |}
-                 | _ => with_conn st k (PReplied [])    (* the task died: dropped without data *)
-                 end
+        | Some (PComplete req) => run_task fixed st k req true
+        | Some (PGone req false) => run_task fixed st k req false
         | _ => st
         end
     | EEnv e =>
         let (s', close) := env_step e (l_env st) in
         {| l_listener := if close then Closed else l_listener st; l_env := s'; l_conns := l_conns st |}
+    | EUnlink => match l_listener st with Listening => with_listener st Unlinked | _ => st end
+    | ERelisten => match l_listener st with Unlinked => with_listener st Listening | _ => st end
+    | EAcceptErr =>
+        if fixed then st    (* logged; the loop goes on accepting *)
+        else match l_listener st with
+             | Listening => with_listener st Closed     (* [break], re-bind: "address in use", [return] *)
+             | Unlinked => with_listener st Listening   (* [break], re-bind succeeds: the file is gone *)
+             | Closed => st
+             end
     end.
 
+  Definition lstep := lstep_gen true.
+  Definition lstep_v0 := lstep_gen false.
   Definition lrun (st : lts_state) (evs : list event) : lts_state := fold_left lstep evs st.
+  Definition lrun_v0 (st : lts_state) (evs : list event) : lts_state := fold_left lstep_v0 evs st.
 End Lts.
 
 Arguments l_listener {S}.
@@ -432,20 +502,67 @@ Arguments l_env {S}.
 Arguments l_conns {S}.
 Arguments lts_init {S}.
 Arguments with_conn {S}.
+Arguments with_listener {S}.
+Arguments response_ack {S}.
+Arguments run_task {S}.
+Arguments lstep_gen {S}.
 Arguments lstep {S}.
+Arguments lstep_v0 {S}.
 Arguments lrun {S}.
+Arguments lrun_v0 {S}.
 
 (** kvarnctl's reading of a reply ([request] in ctl/src/main.rs): the first token decides between
     success and error, the remaining tokens are printed joined by one space. *)
 Definition client_reply_tokens (reply : bytes) : option (list str) :=
   option_map quoted_str_split (utf8_decode reply).
 
+(** [request] + the [match] at the end of [main] in ctl/src/main.rs, without flags: the exit status and
+    what is printed on stdout.  [NotFound] (nobody listens) => 3; not UTF-8 => 6; no token => 5; first
+    token [ok] => 0 and [println!("{args}")] with [args = join(rest, " ")]; [error] => 1; anything else
+    => 4.  ([Response::Error], status 2, is an I/O error: not a reply.) *)
+Definition c_newline : N := 10.
+Definition client_outcome (r : reply) : N * bytes :=
+  match r with
+  | NoAnswer => (3, [])
+  | Data d =>
+      match utf8_decode d with
+      | None => (6, [])
+      | Some line =>
+          match quoted_str_split line with
+          | [] => (5, [])
+          | w :: rest =>
+              if beq w (B "ok") then (0, utf8_encode (join_sp rest) ++ [c_newline])
+              else if beq w (B "error") then (1, [])
+              else (4, [])
+          end
+      end
+  end.
+
 (** ---- the fixture of the correspondence run ------------------------------------------------------------ *)
 
 (** State of the harness plugins: a counter (for the history-dependent plugin [t-count]) and
     whether [Manager::shutdown] ran. *)
-Record fx_state := { fx_count : N; fx_shutdown : bool; fx_gate : bool }.
-Definition fx_init : fx_state := {| fx_count := 0; fx_shutdown := false; fx_gate := false |}.
+(** [fx_acks]: acknowledgements of the pre-shutdown phase that are still due ([Manager::wait] resolves
+    when the shutdown was initiated and none is due: the instances of the run have no ports, so no
+    connection delays the shutdown); [fx_reloads]: how often [reload] started the executable again. *)
+Record fx_state := { fx_count : N; fx_shutdown : bool; fx_gate : bool; fx_acks : N; fx_reloads : N }.
+Definition fx_init : fx_state := {| fx_count := 0; fx_shutdown := false; fx_gate := false; fx_acks := 0; fx_reloads := 0 |}.
+Definition fx_set_count (n : N) (s : fx_state) : fx_state :=
+  {| fx_count := n; fx_shutdown := fx_shutdown s; fx_gate := fx_gate s; fx_acks := fx_acks s; fx_reloads := fx_reloads s |}.
+Definition fx_set_shutdown (s : fx_state) : fx_state :=
+  {| fx_count := fx_count s; fx_shutdown := true; fx_gate := fx_gate s; fx_acks := fx_acks s; fx_reloads := fx_reloads s |}.
+Definition fx_set_gate (s : fx_state) : fx_state :=
+  {| fx_count := fx_count s; fx_shutdown := fx_shutdown s; fx_gate := true; fx_acks := fx_acks s; fx_reloads := fx_reloads s |}.
+Definition fx_set_acks (n : N) (s : fx_state) : fx_state :=
+  {| fx_count := fx_count s; fx_shutdown := fx_shutdown s; fx_gate := fx_gate s; fx_acks := n; fx_reloads := fx_reloads s |}.
+Definition fx_set_reloads (n : N) (s : fx_state) : fx_state :=
+  {| fx_count := fx_count s; fx_shutdown := fx_shutdown s; fx_gate := fx_gate s; fx_acks := fx_acks s; fx_reloads := n |}.
+(** [Manager::shutdown] through the [shutdown] plugin: the waiting variant registered for the
+    pre-shutdown phase first ([wait_for_pre_shutdown]), so one more acknowledgement is due. *)
+Definition fx_shutdown_effect (no_wait : bool) (s : fx_state) : fx_state :=
+  fx_set_shutdown (if no_wait then s else fx_set_acks (fx_acks s + 1) s).
+Definition fx_ack (s : fx_state) : fx_state := fx_set_acks (fx_acks s - 1) s.
+Definition fx_finished (s : fx_state) : bool := fx_shutdown s && (fx_acks s =? 0).
 
 Definition unit_sep : N := 31.
 (** name and arguments as the plugin received them, each followed by U+001F *)
@@ -466,13 +583,13 @@ Definition fx_plugins : plugins fx_state :=
     (B "t-close", fun _ s => (pr_closing (pr_ok (B "closing")), s));
     (B "t-fail-close", fun _ s => (pr_closing pr_error_empty, s));
     (B "t-bin", fun _ s => (pr_ok [255; 0; 32; 254], s));
-    (B "t-count", fun _ s => (pr_ok (dec (fx_count s)), {| fx_count := fx_count s + 1; fx_shutdown := fx_shutdown s; fx_gate := fx_gate s |}));
+    (B "t-count", fun _ s => (pr_ok (dec (fx_count s)), fx_set_count (fx_count s + 1) s));
     ([], fun args s => (pr_ok (fx_args_data [] args), s));
     (* overridden by the harness so that no test can re-execute the binary or block *)
     (B "reload", fun _ s => (pr_ok_empty, s));
     (B "wait", fun _ s => (pr_ok_empty, s));
     (* the defaults of [Plugins::new] *)
-    (B "shutdown", shutdown_plugin (fun _ s => {| fx_count := fx_count s; fx_shutdown := true; fx_gate := fx_gate s |}));
+    (B "shutdown", shutdown_plugin fx_shutdown_effect);
     (B "ping", ping_plugin);
     (B "clear", clear_plugin fx_uri_ok) ].
 
@@ -489,6 +606,22 @@ Definition fx_plugins_chk : plugins_chk fx_state :=
                                  end, s));
     (B "ping", ping_plugin_chk) ] ++ lift_plugins fx_plugins.
 
+(** [with_reload] (src/ctl.rs): [wait = (args == ["wait"])]; any other argument is an error
+    ([check_no_arguments]); the executable is started again ([fx_reloads]); with [wait] the plugin
+    registers for the pre-shutdown phase, answers when the instance shuts down and acknowledges in
+    its [post_send].  (The table always has a [shutdown] plugin; [arg0] exists and can be started:
+    the harness makes it a shell script.) *)
+Definition reload_plugin_chk : plugin_chk fx_state := fun args s =>
+  let wait := match args with [a] => beq a (B "wait") | _ => false end in
+  if negb wait && negb (match args with [] => true | _ => false end)
+  then Ok (pr_error (B "no arguments were expected"), s)
+  else
+    let s1 := fx_set_reloads (fx_reloads s + 1) s in
+    if wait then Ok (pr_acking (pr_ok (B "successfully reloaded Kvarn")), fx_set_acks (fx_acks s1 + 1) s1)
+    else Ok (pr_ok (B "successfully reloaded Kvarn"), s1).
+(** the table of the third server (ctl.reload): kvarn's own [reload] *)
+Definition fx_plugins_reload : plugins_chk fx_state := (B "reload", reload_plugin_chk) :: fx_plugins_chk.
+
 Definition fx_blocked (req : bytes) (s : fx_state) : bool :=
   match utf8_decode req with
   | None => false
@@ -498,12 +631,22 @@ Definition fx_blocked (req : bytes) (s : fx_state) : bool :=
       else if beq (B "t-slow") (request_name toks) then negb (fx_gate s)
       else false
   end.
+(** ... and [reload wait] waits for the shutdown *)
+Definition fx_blocked_reload (req : bytes) (s : fx_state) : bool :=
+  fx_blocked req s ||
+  match utf8_decode req with
+  | None => false
+  | Some line =>
+      let toks := quoted_str_split line in
+      beq (B "reload") (request_name toks) &&
+      match request_args toks with [a] => beq a (B "wait") && negb (fx_shutdown s) | _ => false end
+  end.
 
 (** environment event 0: [Manager::shutdown] called from outside the socket (the ctl socket gets
     [close]); event 1: the harness opens [t-slow]'s gate. *)
 Definition fx_env_step (e : N) (s : fx_state) : fx_state * bool :=
-  if e =? 0 then ({| fx_count := fx_count s; fx_shutdown := true; fx_gate := fx_gate s |}, true)
-  else ({| fx_count := fx_count s; fx_shutdown := fx_shutdown s; fx_gate := true |}, false).
+  if e =? 0 then (fx_set_shutdown s, true)
+  else (fx_set_gate s, false).
 
 (** One step of a session script. *)
 Inductive cop :=
@@ -513,10 +656,15 @@ Inductive cop :=
 | OAwait (k : N)                (* read the reply to its end (bounded wait) *)
 | OShutdown                     (* Manager::shutdown() *)
 | ORelease                      (* open t-slow's gate *)
-| ODrop (k : N)                 (* the client drops the connection without reading *)
+| ODrop (k : N)                 (* the client closes the connection without reading *)
 | OReq (k : N) (b : bytes)      (* connect, write, shut down, read: one whole exchange *)
 | OSend (k : N) (b : bytes)     (* connect, write, shut down *)
-| OPeek (k : N).                (* is there a reply yet? *)
+| OPeek (k : N)                 (* is there a reply yet? *)
+| OUnlink (k : N)               (* remove the socket file, wait for the re-listen *)
+| OSleep                        (* the client takes its time *)
+| OExhaust (k : N)              (* no free file descriptor in the process: accept() fails; connect k *)
+| ORestore                      (* descriptors are available again *)
+| OFinished (k : N).            (* has Manager::wait resolved? *)
 
 Definition d_cop (x : xval) : option cop :=
   match x with
@@ -530,6 +678,11 @@ Definition d_cop (x : xval) : option cop :=
   | XL [XN 7; XN k; XB b] => Some (OReq k b)
   | XL [XN 8; XN k; XB b] => Some (OSend k b)
   | XL [XN 9; XN k] => Some (OPeek k)
+  | XL [XN 10; XN k] => Some (OUnlink k)
+  | XL [XN 11; XN _] => Some OSleep
+  | XL [XN 12; XN k] => Some (OExhaust k)
+  | XL [XN 13; XN _] => Some ORestore
+  | XL [XN 14; XN k] => Some (OFinished k)
   | _ => None
   end.
 
@@ -537,50 +690,70 @@ Definition cop_events (o : cop) : list event :=
   match o with
   | OOpen k => [EConnect k]
   | OWrite k b => [ESend k b]
-  | OFin k | ODrop k => [EFin k]
+  | OFin k => [EFin k]
+  | ODrop k => [EDrop k]
   | OShutdown => [EEnv 0]
   | ORelease => [EEnv 1]
   | OReq k b | OSend k b => [EConnect k; ESend k b; EFin k]
-  | OAwait _ | OPeek _ => []
+  | OUnlink _ => [EUnlink; ERelisten]
+  | OExhaust k => [EAcceptErr; EConnect k]
+  | OAwait _ | OPeek _ | OSleep | ORestore | OFinished _ => []
   end.
 
-Definition fx_lstep := lstep fx_plugins_chk fx_blocked fx_env_step.
+(** [with_wait] before its repair: [sender.send(()).unwrap()] panicked when the shutdown manager had
+    already collected the acknowledgements of the pre-shutdown phase (the request was accepted before
+    the shutdown and handled after it). *)
+Definition wait_plugin_v0 : plugin_chk fx_state := fun args s =>
+  match args with
+  | [] => if fx_finished s then Panic else Ok (pr_ok_empty, s)
+  | _ :: _ => Ok (pr_error (B "no arguments were expected"), s)
+  end.
+Definition fx_plugins_chk_v0 : plugins_chk fx_state := (B "wait", wait_plugin_v0) :: fx_plugins_chk.
+
+Definition fx_lstep := lstep fx_plugins_chk fx_blocked fx_env_step fx_ack.
+Definition fx_lstep_reload := lstep fx_plugins_reload fx_blocked_reload fx_env_step fx_ack.
 
 (** The schedule the model commits to: a handler runs as soon as its request is complete and it
     is not blocked (two passes: a closing [shutdown] later in the list unblocks a [wait] earlier
     in it).  [socket_never_wedged] is about all schedules. *)
 Definition is_complete (c : N * conn_phase) : bool :=
-  match snd c with PComplete _ => true | _ => false end.
-Definition handle_ready (st : lts_state fx_state) : lts_state fx_state :=
-  fold_left fx_lstep (map (fun c => EHandle (fst c)) (filter is_complete (l_conns st))) st.
+  match snd c with PComplete _ | PGone _ false => true | _ => false end.
 
 (** what the client sees: reply [(L (N 0) (B data))]; connect refused [(L (N 1))]; nothing
-    within the bounded wait [(L (N 3))]; nothing yet [(L (N 4))]; no such connection [(L (N 5))] *)
+    within the bounded wait [(L (N 3))]; nothing yet [(L (N 4))]; no such connection (never
+    opened, or closed by the client) [(L (N 5))] *)
 Definition x_phase (pending : N) (p : option conn_phase) : xval :=
   match p with
   | Some (PReplied d) => XL [XN 0; XB d]
   | Some PRefused => XL [XN 1]
   | Some (POpen _) | Some (PComplete _) => XL [XN pending]
-  | None => XL [XN 5]
+  | Some (PGone _ _) | None => XL [XN 5]
   end.
 
 Definition cop_output (st : lts_state fx_state) (o : cop) : option xval :=
   match o with
   | OAwait k | OReq k _ => Some (XL [XN k; x_phase 3 (conn_get k (l_conns st))])
   | OPeek k => Some (XL [XN k; x_phase 4 (conn_get k (l_conns st))])
+  (* 6: a listener is bound to the path again; 7: nobody listens *)
+  | OUnlink k => Some (XL [XN k; XL [XN (match l_listener st with Listening => 6 | _ => 7 end)]])
+  (* 8: the shutdown has finished; 9: it has not *)
+  | OFinished k => Some (XL [XN k; XL [XN (if fx_finished (l_env st) then 8 else 9)]])
   | _ => None
   end.
 
-Fixpoint conc_run (st : lts_state fx_state) (ops : list cop) : list xval :=
-  match ops with
-  | [] => []
-  | o :: r =>
-      let st' := handle_ready (handle_ready (fold_left fx_lstep (cop_events o) st)) in
-      match cop_output st' o with
-      | Some x => x :: conc_run st' r
-      | None => conc_run st' r
-      end
-  end.
+Section ConcRun.
+  Variable step : lts_state fx_state -> event -> lts_state fx_state.
+  Definition handle_ready (st : lts_state fx_state) : lts_state fx_state :=
+    fold_left step (map (fun c => EHandle (fst c)) (filter is_complete (l_conns st))) st.
+  Fixpoint conc_run (st : lts_state fx_state) (ops : list cop) : list xval * lts_state fx_state :=
+    match ops with
+    | [] => ([], st)
+    | o :: r =>
+        let st' := handle_ready (handle_ready (fold_left step (cop_events o) st)) in
+        let (out, fin) := conc_run st' r in
+        (match cop_output st' o with Some x => x :: out | None => out end, fin)
+    end.
+End ConcRun.
 
 (** ---- xval interface -------------------------------------------------------------------------------- *)
 Definition x_reply (r : reply) : xval :=
@@ -593,10 +766,49 @@ Definition run_session (x : xval) : xval :=
   | None => bad_input
   end.
 
-(** ctl.conc : session script (list of steps) -> the outputs of its Await / Req / Peek steps *)
+(** ctl.conc : session script (list of steps) -> the outputs of its reading steps *)
 Definition run_conc (x : xval) : xval :=
   match d_list d_cop x with
-  | Some ops => XL (conc_run (lts_init fx_init) ops)
+  | Some ops => XL (fst (conc_run fx_lstep (lts_init fx_init) ops))
+  | None => bad_input
+  end.
+
+(** ctl.reload : the same against the table with kvarn's own [reload]; the last element says how
+    often the executable was started again *)
+Definition run_reload (x : xval) : xval :=
+  match d_list d_cop x with
+  | Some ops =>
+      let (out, fin) := conc_run fx_lstep_reload (lts_init fx_init) ops in
+      XL (out ++ [XL [XN 99; XN (fx_reloads (l_env fin))]])
+  | None => bad_input
+  end.
+
+(** ctl.binary : invocations [kvarnctl -- command args...] against ONE instance, in order ->
+    (exit status, stdout) of each *)
+Definition d_call (x : xval) : option (str * list str) :=
+  match x with
+  | XL [c; a] => match d_str c, d_list d_str a with Some c, Some a => Some (c, a) | _, _ => None end
+  | _ => None
+  end.
+Fixpoint binary_run (ls : listener * fx_state) (calls : list (str * list str)) : list (N * bytes) :=
+  match calls with
+  | [] => []
+  | (c, a) :: r =>
+      let (ls', rep) := serve fx_plugins ls (utf8_encode (client_message c a)) in
+      client_outcome rep :: binary_run ls' r
+  end.
+Definition run_binary (x : xval) : xval :=
+  match d_list d_call x with
+  | Some calls => x_list (fun o => XL [XN (fst o); XB (snd o)]) (binary_run (Listening, fx_init) calls)
+  | None => bad_input
+  end.
+(** spec component: [kvarnctl ping args...] prints the arguments, joined by one space, and exits
+    with 0 -- whatever was sent before, as long as nothing closed the socket (stated without the
+    handler, the splitter or the encoder) *)
+Definition run_binary_ping_spec (x : xval) : xval :=
+  match d_list d_call x with
+  | Some calls =>
+      x_list (fun ca => XL [XN 0; XB (utf8_encode (join_sp (snd ca)) ++ [c_newline])]) calls
   | None => bad_input
   end.
 
@@ -616,5 +828,8 @@ Definition run_utf8_encode (x : xval) : xval :=
 Definition ctl_table : list (bytes * (xval -> xval)) :=
   [ (B "ctl.session", run_session);
     (B "ctl.conc", run_conc);
+    (B "ctl.reload", run_reload);
+    (B "ctl.binary", run_binary);
+    (B "ctl.binary.pingspec", run_binary_ping_spec);
     (B "ctl.utf8", run_utf8);
     (B "ctl.utf8enc", run_utf8_encode) ].
